@@ -368,7 +368,11 @@ func buildRequest(rng *rand.Rand, sc *Scenario, m methodInfo, cp clientPlan, hos
 	switch fault {
 	case 0: // cut the body
 		if len(body) > 0 {
-			body = body[:rng.IntN(len(body))]
+			cut := rng.IntN(len(body))
+			if len(body) > 5 && rng.IntN(3) == 0 {
+				cut = 5 // the envelope arrives, not one byte of the message it announces
+			}
+			body = body[:cut]
 			if rng.IntN(2) == 0 {
 				sc.Req.BodyEnd = "unexpected"
 			}
